@@ -16,7 +16,7 @@ type binaryStreamPProfProtoDec struct {
 }
 
 func ns(timestamp uint64) uint64 {
-	for timestamp < 1000000000000000000 {
+	for timestamp != 0 && timestamp < 1000000000000000000 {
 		timestamp *= 10
 	}
 	return timestamp
